@@ -86,12 +86,12 @@ def env(b):
     b.sym('stream', STREAM)
 
     def copyfileobj(interp, st, args, kwargs):
-        src, dst = args
+        src, dst = args[0], args[1]
         # may fail after any prefix has been copied
         bad = st.copy()
-        bad.emit('copy_partial', src=src, dst=dst)
+        bad.emit('copy_partial', src=src, dst=dst, length=kwargs.get('length', args[2] if len(args) > 2 else None))
         yield bad, Raised(Exc('OSError'))
-        st.emit('copy_all', src=src, dst=dst, length=kwargs.get('length'))
+        st.emit('copy_all', src=src, dst=dst, length=kwargs.get('length', args[2] if len(args) > 2 else None))
         yield st, None
 
     b.bind('shutil', Obj('shutil', copyfileobj=Model('copyfileobj', copyfileobj)))
@@ -164,6 +164,13 @@ def upload_post(prop, streaming):
             sig = ','.join(k for k in kinds if k not in ('destination_temp',)) + '->' + p.kind
             dt = p.events('destination_temp')
             reps = p.events('replace')
+            if streaming:
+                for e in p.events('copy_all') + p.events('copy_partial'):
+                    # C20: the payload is read from the caller's (rate-limited) stream in pieces of the chunk size the
+                    # COMMAND chose, never larger
+                    ln = e.data.get('length')
+                    res.oblige(p.pc_at(e), f'{prop}.local.upload_stream.reads_the_stream_in_pieces_of_chunk_size', z3.BoolVal(ln is not None) if ln is None else z3.And(
+                        sym.lift(ln, INT).z == b.st.lookup('chunk_size').z, z3.BoolVal(e.data['src'] is b.st.lookup('stream'))))
             if p.kind in ('normal', 'return'):
                 # the object becomes visible only through the atomic replace of a COMPLETE temp file
                 ok = len(reps) == 1 and len(dt) == 1
@@ -195,7 +202,12 @@ def upload_post(prop, streaming):
 def download_stream_post(prop):
     def post(res):
         n_exc = 0
+        b = res.builder
         for p in res.paths:
+            for e in p.events('copy_all') + p.events('copy_partial'):
+                ln = e.data.get('length')
+                res.oblige(p.pc_at(e), f'{prop}.local.download_stream.writes_the_stream_in_pieces_of_chunk_size', z3.BoolVal(ln is not None) if ln is None else z3.And(
+                    sym.lift(ln, INT).z == b.st.lookup('chunk_size').z, z3.BoolVal(e.data['dst'] is b.st.lookup('stream'))))
             evs = p.st.events
             kinds = [e.kind for e in evs]
             sig = ','.join(kinds) + '->' + p.kind
